@@ -40,6 +40,7 @@ METHODS = {
     '_us': [([], {}), ([1], {}), ([], {'a': [1]})],
     'wrapped': [([1], {}), ([], {'a': 2}), ([], {})],
     'rpc.ext': [([1], {}), ([], {'a': 2}), ([], {})],
+    'js.tag': [(['x'], {}), ([], {'t': 'y', 'n': 2}), ([5], {}), ([], {'t': None})],
 }
 
 
@@ -49,6 +50,9 @@ def id_gen(spec: Dict[str, Any]):
         return functools.partial(generators.sequential, spec['start'], spec['step'])
     if k == 'randint':
         return functools.partial(generators.randint, 0, 2**62)
+    if k == 'randint-narrow':
+        # a built-in generator configured so narrowly that it repeats itself: every id is 5
+        return functools.partial(generators.randint, 5, 5)
     if k == 'random':
         return functools.partial(generators.random, spec['length'], spec['chars'])
     return generators.uuid
@@ -71,7 +75,7 @@ class C07(Check):
         "proxy attribute, hand-built Request + send, notify; batch add/notify, batch(...)(...), batch[...], batch.proxy, hand-built "
         "BatchRequest + batch.send; one batch object sent, grown and sent again; one batch object filled through two notations} (each only where it can express the plan) and, for the interchangeability clause, through a second "
         "notation with identically seeded id generators; x sync/async client x sync/async dispatcher x id generator {sequential(start, "
-        "step), randint, random(length, chars), uuid} x strict on/off x dispatcher max_batch_size {unset, 1, 2, 3} x scripted method behaviours (return any JSON value, raise registered "
+        "step), randint, randint over a one-value range (it repeats itself), random(length, chars), uuid} x strict on/off x dispatcher max_batch_size {unset, 1, 2, 3} x scripted method behaviours (return any JSON value, raise registered "
         "typed / unregistered protocol errors, raise exceptions). Oracle: one transport call per send; the wire text is a valid request "
         "document equal to the expected one up to id values (ids present, distinct and of the generator's type for calls; absent for "
         "notifications; positional -> array, named -> object, none -> no params member); outcomes equal the reference server's (which calls "
@@ -105,7 +109,7 @@ class C07(Check):
 
         s_idgen = st.one_of(
             st.builds(lambda a, b: {'kind': 'sequential', 'start': a, 'step': b}, st.sampled_from([1, 0, -5, 10**20]), st.sampled_from([1, 2, -1, 7])),
-            st.just({'kind': 'randint'}),
+            st.just({'kind': 'randint'}), st.just({'kind': 'randint-narrow'}),
             st.builds(lambda n, c: {'kind': 'random', 'length': n, 'chars': c}, st.sampled_from([8, 16, 32]), st.sampled_from(['0123456789abcdef', 'abcdefghijklmnopqrstuvwxyz'])),
             st.just({'kind': 'uuid'}),
         )
@@ -129,6 +133,8 @@ class C07(Check):
             {**base, 'notation': 'batch-getitem', 'other': 'batch-proxy', 'plan': [c('echo', [1, 2]), c('noargs', []), c('ret', [None])]},
             {**base, 'notation': 'proxy', 'other': 'send', 'plan': [c('rpc_err2', []), c('nope', [])]},
             {**base, 'notation': 'proxy', 'other': 'call', 'plan': [c('_us', [1]), n('_us', [])]},
+            *[{**base, 'strict': strict, 'id_gen': {'kind': 'randint-narrow'}, 'notation': nt, 'other': 'call', 'plan': [c('echo', [1]), n('noargs', []), c('echo', [2])]}
+              for nt in ('batch-add', 'batch-call', 'batch-getitem', 'batch-proxy', 'batch-send') for strict in (True, False)],
             {**base, 'notation': 'batch-mixed', 'other': 'batch-add', 'plan': [c('echo', [1, 2]), n('noargs', []), c('echo', [3, 4])]},
             {**base, 'client': 'async', 'dispatcher': 'async', 'strict': False, 'notation': 'batch-mixed', 'other': 'batch-send', 'plan': [n('echo', [1]), c('ret', [])]},
             {**base, 'notation': 'call', 'other': 'batch-add', 'plan': [c('wrapped', [1]), c('rpc.ext', [2]), {'method': 'rpc.ext', 'args': [], 'kwargs': {'a': 3}, 'kind': 'notification'}, c('wrapped', [], {'a': 4})]},
@@ -226,60 +232,64 @@ class C07(Check):
                         return r.result
                     attempt(via_send)
         else:
-            b = client.batch
-            if notation == 'batch-add':
-                for p in plan:
-                    (b.add if p['kind'] == 'call' else b.notify)(p['method'], *p['args'], **p['kwargs'])
-                attempt(lambda: b.call())
-            elif notation == 'batch-reuse':
-                k = self._split(spec)
-                for p in plan[:k]:
-                    (b.add if p['kind'] == 'call' else b.notify)(p['method'], *p['args'], **p['kwargs'])
-                attempt(lambda: b.call())
-                for p in plan[k:]:
-                    (b.add if p['kind'] == 'call' else b.notify)(p['method'], *p['args'], **p['kwargs'])
-                attempt(lambda: b.call())
-            elif notation == 'batch-mixed':
-                for p in plan[:-1]:
-                    if p['kind'] == 'call':
-                        b = b(p['method'], *p['args'], **p['kwargs'])
-                    else:
-                        b = b.notify(p['method'], *p['args'], **p['kwargs'])
-                last = plan[-1]
-                attempt(lambda: b[(last['method'], *last['args']),])
-            elif notation == 'batch-call':
-                for p in plan:
-                    if p['kind'] == 'call':
-                        b = b(p['method'], *p['args'], **p['kwargs'])
-                    else:
-                        b = b.notify(p['method'], *p['args'], **p['kwargs'])
-                attempt(lambda: b.call())
-            elif notation == 'batch-getitem':
-                attempt(lambda: b[tuple((p['method'], *p['args']) for p in plan)])
-            elif notation == 'batch-proxy':
-                pr = b.proxy
-                for p in plan:
-                    pr = getattr(pr, p['method'])(*p['args'], **p['kwargs'])
-                attempt(lambda: pr.call())
-            else:
-                gen = client.id_gen_impl()
-                try:
-                    breq = pjrpc.BatchRequest(*[
-                        pjrpc.Request(p['method'], p['args'] or p['kwargs'], id=next(gen) if p['kind'] == 'call' else None) for p in plan],
-                        strict=spec.get('batch_strict', True))      # a hand-built batch that does not police duplicate ids (there are none)
-                except Exception as e:
-                    outcomes.append(('exc', e))
-                    breq = None
-                if breq is not None:
-                    def via_send():
-                        r = client.batch.send(breq)
-                        if ckind == 'async':
-                            async def go():
-                                rr = await r
-                                return None if rr is None else rr.result
-                            return go()
-                        return None if r is None else r.result
-                    attempt(via_send)
+          try:
+              b = client.batch
+              if notation == 'batch-add':
+                  for p in plan:
+                      (b.add if p['kind'] == 'call' else b.notify)(p['method'], *p['args'], **p['kwargs'])
+                  attempt(lambda: b.call())
+              elif notation == 'batch-reuse':
+                  k = self._split(spec)
+                  for p in plan[:k]:
+                      (b.add if p['kind'] == 'call' else b.notify)(p['method'], *p['args'], **p['kwargs'])
+                  attempt(lambda: b.call())
+                  for p in plan[k:]:
+                      (b.add if p['kind'] == 'call' else b.notify)(p['method'], *p['args'], **p['kwargs'])
+                  attempt(lambda: b.call())
+              elif notation == 'batch-mixed':
+                  for p in plan[:-1]:
+                      if p['kind'] == 'call':
+                          b = b(p['method'], *p['args'], **p['kwargs'])
+                      else:
+                          b = b.notify(p['method'], *p['args'], **p['kwargs'])
+                  last = plan[-1]
+                  attempt(lambda: b[(last['method'], *last['args']),])
+              elif notation == 'batch-call':
+                  for p in plan:
+                      if p['kind'] == 'call':
+                          b = b(p['method'], *p['args'], **p['kwargs'])
+                      else:
+                          b = b.notify(p['method'], *p['args'], **p['kwargs'])
+                  attempt(lambda: b.call())
+              elif notation == 'batch-getitem':
+                  attempt(lambda: b[tuple((p['method'], *p['args']) for p in plan)])
+              elif notation == 'batch-proxy':
+                  pr = b.proxy
+                  for p in plan:
+                      pr = getattr(pr, p['method'])(*p['args'], **p['kwargs'])
+                  attempt(lambda: pr.call())
+              else:
+                  gen = client.id_gen_impl()
+                  try:
+                      breq = pjrpc.BatchRequest(*[
+                          pjrpc.Request(p['method'], p['args'] or p['kwargs'], id=next(gen) if p['kind'] == 'call' else None) for p in plan],
+                          strict=spec.get('batch_strict', True) or spec['id_gen']['kind'] == 'randint-narrow')      # a hand-built batch that does not police duplicate ids (only used when there are none)
+                  except Exception as e:
+                      outcomes.append(('exc', e))
+                      breq = None
+                  if breq is not None:
+                      def via_send():
+                          r = client.batch.send(breq)
+                          if ckind == 'async':
+                              async def go():
+                                  rr = await r
+                                  return None if rr is None else rr.result
+                              return go()
+                          return None if r is None else r.result
+                      attempt(via_send)
+          except Exception as e:      # building the batch itself was refused (e.g. duplicate ids): that is the send's outcome
+            if not outcomes:
+                outcomes.append(('exc', e))
         return {'sent': list(client.sent), 'outcomes': outcomes, 'log': list(hm.RT.log)}
 
     # ---- oracle -----------------------------------------------------------------------------------------------
@@ -332,11 +342,20 @@ class C07(Check):
         discs: List[Disc] = []
         single = notation in SINGLE_NOTATIONS
         groups = [[i] for i in range(len(plan))] if single else [list(range(len(plan)))]
+        # (0) an id generator that repeats itself: a batch with two calls cannot be given distinct ids - it is refused with the identity
+        # error before anything is put on the wire (whatever the client's strict flag says about RESPONSES)
+        ncalls = len([p for p in plan if p['kind'] == 'call'])
+        if spec['id_gen']['kind'] == 'randint-narrow' and not single and ncalls >= 2:
+            from pjrpc.common.exceptions import IdentityError
+            got = run['outcomes'][0] if run['outcomes'] else ('value', None)
+            if run['sent'] or got[0] != 'exc' or not isinstance(got[1], IdentityError):
+                discs.append(Disc("C07/wire/batch-with-duplicate-ids-not-refused", f"sent {[t for t, _ in run['sent']]} outcome {got[1]!r} | {where}"))
+            return discs
         # (1) wire documents
         if len(run['sent']) != len(groups):
             discs.append(Disc(f"C07/wire/transport-call-count", f"{len(run['sent'])} transport calls for {len(groups)} sends | {where}"))
             return discs
-        gtype = {'sequential': int, 'randint': int, 'random': str}.get(spec['id_gen']['kind'])
+        gtype = {'sequential': int, 'randint': int, 'randint-narrow': int, 'random': str}.get(spec['id_gen']['kind'])
         for (text, is_notif), idxs in zip(run['sent'], groups):
             try:
                 doc = json.loads(text)
@@ -411,6 +430,8 @@ class C07(Check):
         return discs
 
     def _run_and_judge(self, spec: Any, notation: str, expected: List[ref.Element]):
+        if spec['id_gen']['kind'] == 'randint-narrow' and notation in ('batch-reuse', 'batch-mixed'):
+            notation = 'batch-add'      # with a repeating generator the multi-step notations cannot even be built
         run = self._run_notation(spec, notation)
         if notation != 'batch-reuse':
             return run, self._judge(spec, notation, run, expected)
